@@ -1,4 +1,6 @@
 import OptunaVerif.Lemmas.Journal
+import OptunaVerif.Lemmas.JournalRefine
+import OptunaVerif.Props.C01
 /-!
 # C06 — journal replay is deterministic; all workers converge
 
@@ -160,6 +162,50 @@ theorem snapshot_cursor (by_ : String) (log : List Rec) (k : Nat) (hk : k ≤ lo
     (restore (applyAll by_ JState.init (log.take k))).cursor = k := by
   show (applyAll by_ JState.init (log.take k)).cursor = k
   rw [(applyAll_pub by_ _ _).2]; simp [JState.init, hk]
+
+/-! ## the replay refines the storage contract (so the journal backend inherits C01's theorems) -/
+
+/-- the contract calls a log stands for, record by record (the `raised` flag of a `set_trial_param`
+is what its issuer observed) -/
+def opsOf : Spec → List Rec → List Op
+  | _, [] => []
+  | s, r :: rs => opOf r (rejects s r == some .valueError) :: opsOf (applySpec s r) rs
+
+theorem jinv_replay (s : Spec) (rs : List Rec) (h : JInv s) : JInv (pubReplay s rs) := by
+  induction rs generalizing s with
+  | nil => exact h
+  | cons r rs ih => exact ih _ (jinv_step s r h)
+
+/-- **replay_refines_spec**: the public state after replaying any log is the state the contract model
+reaches by the corresponding calls, and every record is rejected at its issuer with exactly the error
+the contract gives that call. -/
+theorem replay_refines_spec (s : Spec) (rs : List Rec) (h : JInv s) :
+    pubReplay s rs = C01.after s (opsOf s rs) := by
+  induction rs generalizing s with
+  | nil => rfl
+  | cons r rs ih =>
+    have h1 := (apply_refines_step s r h).1
+    show pubReplay (applySpec s r) rs = C01.after (Storage.step s _).1 (opsOf (applySpec s r) rs)
+    rw [← h1]
+    exact ih _ (jinv_step s r h)
+
+theorem issuer_error_is_contract_error (rs : List Rec) (r : Rec) :
+    let s := pubReplay Storage.init rs
+    rejects s r = errOf (Storage.step s (opOf r (rejects s r == some .valueError))).2 :=
+  (apply_refines_step _ r (jinv_replay _ rs jinv_init)).2
+
+/-- corollary: on a journal, trial numbers are 0,1,2,… in creation order per study — whatever was
+logged by whichever workers (C01's `numbers_dense`, transferred through the refinement). -/
+theorem journal_numbers_dense (rs : List Rec) : C01.Numbered (pubReplay Storage.init rs) := by
+  rw [replay_refines_spec _ rs jinv_init]
+  exact C01.numbers_dense _
+
+/-- corollary: a finished trial's record is the same after any further log suffix. -/
+theorem journal_finished_frozen (rs more : List Rec) (tid : Nat) (t : TrialS)
+    (h : (pubReplay Storage.init rs).trials[tid]? = some t) (hf : t.state.isFinished = true) :
+    (pubReplay Storage.init (rs ++ more)).trials[tid]? = some t := by
+  rw [pubReplay_append, replay_refines_spec _ more (jinv_replay _ rs jinv_init)]
+  exact C01.finished_frozen _ _ tid t h hf
 
 /-! ## non-vacuity -/
 
